@@ -490,6 +490,11 @@ Proof. intros H. rewrite firstn_app, firstn_all2 by exact H. reflexivity. Qed.
 Lemma skipn_app_ge {A} n (a b : list A) : (length a <= n)%nat -> skipn n (a ++ b) = skipn (n - length a) b.
 Proof. intros H. rewrite skipn_app, skipn_all2 by exact H. reflexivity. Qed.
 
+Lemma firstn_app_exact {A} (a b : list A) : firstn (length a) (a ++ b) = a.
+Proof. rewrite firstn_app, Nat.sub_diag, firstn_all. cbn [firstn]. apply app_nil_r. Qed.
+Lemma skipn_app_exact {A} (a b : list A) : skipn (length a) (a ++ b) = b.
+Proof. rewrite skipn_app, Nat.sub_diag, skipn_all. reflexivity. Qed.
+
 Lemma rc_eta k : mk_rc (rc_hdr k) (rc_data k) (rc_trailers k) (rc_valid k) (rc_cr k) (rc_fail k) = k.
 Proof. destruct k; reflexivity. Qed.
 
@@ -819,7 +824,7 @@ Proof. destruct v; reflexivity. Qed.
 
 Lemma receive_body_app cfg rp v x b v3 ra r : rc_ok (rv_chunk v) -> receive_body cfg rp v x = (v3, ra, r) ->
   (ra <> [] -> receive_body cfg rp v (x ++ b) = (v3, ra ++ b, r)) /\
-  (ra = [] -> r = RX_INCOMPLETE -> rc_valid (rv_chunk v3) = false ->
+  (ra = [] -> r = RX_INCOMPLETE -> hd_is_chunked (rq_headers (rv_req v3)) = false \/ rc_valid (rv_chunk v3) = false ->
    receive_body cfg rp v (x ++ b) = receive_body cfg false v3 b).
 Proof.
   intros Hok H. unfold receive_body in H. unfold receive_body at 1 2.
@@ -830,14 +835,17 @@ Proof.
     subst. rewrite (G2 eq_refl eq_refl). unfold receive_body.
     rewrite (receive_cl_incomplete_req _ _ _ _ _ _ H), Emh, Ech. reflexivity.
   - destruct (receive_chunked_app cfg rp v x b v3 ra r Hok H) as [G1 G2]. split; [exact G1|]. intros E1 E2 E3.
-    subst. rewrite (G2 eq_refl eq_refl E3). unfold receive_body.
-    rewrite (receive_chunked_incomplete_req _ _ _ _ _ _ H), Emh, Ech. reflexivity.
+    subst. pose proof (receive_chunked_incomplete_req _ _ _ _ _ _ H) as Hrq.
+    assert (Hv3 : rc_valid (rv_chunk v3) = false).
+    { destruct E3 as [E3|E3]; [|exact E3]. rewrite Hrq in E3. rewrite E3 in Ech. discriminate Ech. }
+    rewrite (G2 eq_refl eq_refl Hv3). unfold receive_body. rewrite Hrq, Emh, Ech. reflexivity.
 Qed.
 
 (* request_receiver::receive *)
 Theorem receive_app cfg v a b v1 ra r : rv_ok v -> receive cfg v a = (v1, ra, r) ->
   (ra <> [] -> receive cfg v (a ++ b) = (v1, ra ++ b, r)) /\
-  (ra = [] -> r = RX_INCOMPLETE -> rc_valid (rv_chunk v1) = false -> receive cfg v (a ++ b) = receive cfg v1 b).
+  (ra = [] -> r = RX_INCOMPLETE -> hd_is_chunked (rq_headers (rv_req v1)) = false \/ rc_valid (rv_chunk v1) = false ->
+   receive cfg v (a ++ b) = receive cfg v1 b).
 Proof.
   intros [Hq Hc] H. unfold receive in H. unfold receive at 1 2. cbv zeta in H |- *.
   destruct (rq_valid (rv_req v)) eqn:Ev; cbn [negb] in *.
@@ -980,7 +988,8 @@ Theorem receive_app_reachable cfg history a b v1 ra r :
   let v := fst (fst (fst (feed cfg (rv_init cfg) history))) in
   receive cfg v a = (v1, ra, r) ->
   (ra <> [] -> receive cfg v (a ++ b) = (v1, ra ++ b, r)) /\
-  (ra = [] -> r = RX_INCOMPLETE -> rc_valid (rv_chunk v1) = false -> receive cfg v (a ++ b) = receive cfg v1 b).
+  (ra = [] -> r = RX_INCOMPLETE -> hd_is_chunked (rq_headers (rv_req v1)) = false \/ rc_valid (rv_chunk v1) = false ->
+   receive cfg v (a ++ b) = receive cfg v1 b).
 Proof. intros v. apply receive_app. exact (feed_ok cfg history _ (rv_ok_init cfg)). Qed.
 
 (* ---- the read loop ---- *)
@@ -1013,7 +1022,8 @@ Definition no_reject (calls : list (rx * N)) : Prop :=
    over b does - same deliveries in the same order, same final state *)
 Theorem rx_loop_cut_mid_message cfg : forall n v a b v1 e1 c1 m v2 e2 c2,
   rv_ok v ->
-  rx_loop n cfg v a = (v1, e1, c1, false) -> ends_incomplete c1 -> no_reject c1 -> rc_valid (rv_chunk v1) = false ->
+  rx_loop n cfg v a = (v1, e1, c1, false) -> ends_incomplete c1 -> no_reject c1 ->
+  hd_is_chunked (rq_headers (rv_req v1)) = false \/ rc_valid (rv_chunk v1) = false ->
   rx_loop m cfg v1 b = (v2, e2, c2, false) ->
   exists c, rx_loop (n + m) cfg v (a ++ b) = (v2, e1 ++ e2, c, false).
 Proof.
@@ -1069,4 +1079,354 @@ Proof.
       change (d :: t ++ b) with ((d :: t) ++ b). rewrite (G1 Hne), Ed.
       exists ((r, nlen ((d :: t) ++ b) - nlen ((x :: rest') ++ b)) :: c).
       destruct r; try congruence; rewrite Hc, <- app_assoc; reflexivity.
+Qed.
+
+(* ---- calls that complete exactly at the end of a read ---- *)
+(* a call that delivers a request or a chunk (or, when chunks are concatenated, absorbs a complete chunk) with the
+   last byte of the read returns the same result when more bytes follow - provided the request says how it is
+   framed (without Content-Length and without chunked coding, bytes that follow a request are taken for a body the
+   client failed to announce: 411) *)
+Lemma receive_cl_end cfg rp v x b v3 : receive_cl cfg rp v x = (v3, [], RX_VALID) ->
+  nonempty (hd_find (rq_headers (rv_req v)) hf_LC_CONTENT_LENGTH) = true ->
+  receive_cl cfg rp v (x ++ b) = (v3, b, RX_VALID).
+Proof.
+  intros H Hhas. unfold receive_cl in H |- *. rewrite Hhas in *.
+  set (q1 := rv_req v) in *. set (cl := hd_content_length (rq_headers q1)) in *.
+  set (trace_bad := rq_is_trace q1 && negb match cl with Some 0 => true | _ => false end) in *.
+  set (v2 := if rq_is_trace q1 && negb trace_bad then rv_set_code v code_METHOD_NOT_ALLOWED else v) in *.
+  destruct trace_bad; [unfold invalid in H; inversion H|].
+  destruct cl as [n|]; [|unfold invalid in H; inversion H].
+  destruct ((0 <? n) && (c_max_content cfg <? n)); [unfold invalid in H; inversion H|].
+  cbn [negb] in *. rewrite !Bool.andb_false_r in *.
+  cbn [rv_req rv_chunk rv_body rv_code rv_continue_sent rv_is_head] in *.
+  set (required := (Z.of_N n - Z.of_N (nlen (rv_body v2)))%Z) in *.
+  rewrite nlen_app'.
+  destruct (required <? 0)%Z eqn:Eneg.
+  { replace (required <? Z.of_N (nlen x))%Z with true in H by (unfold nlen; lia). cbn [andb] in H. inversion H. }
+  cbn [andb] in *.
+  destruct (required <? Z.of_N (nlen x))%Z eqn:Elt.
+  - (* the body would end inside x: then something is left over *)
+    assert (Hn : (Z.to_nat required < length x)%nat) by (unfold nlen in Elt; lia).
+    pose proof (skipn_nonempty _ _ Hn) as Hsk.
+    destruct (nlen (rv_body v2 ++ firstn (Z.to_nat required) x) =? n); [inversion H; subst; congruence|].
+    destruct (rp && rq_expect_continue q1 && negb (rv_continue_sent v2)); inversion H.
+  - assert (Hge : (length x <= Z.to_nat required)%nat) by (unfold nlen in Elt; lia).
+    destruct (nlen (rv_body v2 ++ x) =? n) eqn:Efull.
+    2:{ destruct (rp && rq_expect_continue q1 && negb (rv_continue_sent v2)); inversion H. }
+    inversion H; subst. clear H.
+    assert (Hreq : Z.to_nat required = length x) by (rewrite nlen_app' in Efull; unfold required, nlen in *; lia).
+    destruct b as [|y b'].
+    + rewrite app_nil_r. replace (required <? Z.of_N (nlen x + nlen []))%Z with false by (unfold nlen in *; cbn [length]; lia).
+      rewrite Efull. reflexivity.
+    + replace (required <? Z.of_N (nlen x + nlen (y :: b')))%Z with true by (unfold nlen in *; cbn [length]; lia).
+      rewrite Hreq, firstn_app_exact, skipn_app_exact, Efull. reflexivity.
+Qed.
+
+Lemma receive_chunked_end cfg rp v x b v3 r : rc_ok (rv_chunk v) -> receive_chunked cfg rp v x = (v3, [], r) ->
+  r = RX_VALID \/ r = RX_CHUNK \/ (r = RX_INCOMPLETE /\ rc_valid (rv_chunk v3) = true) ->
+  receive_chunked cfg rp v (x ++ b) = (v3, b, r).
+Proof.
+  intros Hok H Hr. unfold receive_chunked in H |- *. cbv zeta in H |- *.
+  set (k0 := if rc_valid (rv_chunk v) then rc_clear (rv_chunk v) else rv_chunk v) in *.
+  assert (Hok0 : rc_ok k0) by (unfold k0; destruct (rc_valid (rv_chunk v)); [exact fl_ok_init | exact Hok]).
+  cbn [rv_req rv_chunk rv_body rv_code rv_continue_sent rv_is_head] in *.
+  destruct (rp && rq_expect_continue (rv_req v) && negb (rv_continue_sent v)).
+  { inversion H; subst. destruct Hr as [E|[E|[E _]]]; discriminate E. }
+  destruct (rp && negb (c_concat cfg)).
+  { inversion H; subst. reflexivity. }
+  rewrite (rc_parse_app (c_lim cfg) _ x b Hok0).
+  destruct (rc_parse (c_lim cfg) k0 x) as [[k1 b2] r2] eqn:Ep. pose proof (rc_parse_flags _ _ _ _ _ _ Ep) as Hfl.
+  destruct r2.
+  - rewrite Hfl in *.
+    destruct (c_concat cfg).
+    + destruct (rc_is_last k1); [inversion H; subst; reflexivity|].
+      destruct (c_max_content cfg <? nlen (rv_body v) + nlen (rc_data k1)); [unfold invalid in *; inversion H; subst; destruct Hr as [E|[E|[E _]]]; discriminate E|].
+      inversion H; subst. reflexivity.
+    + inversion H; subst. reflexivity.
+  - (* ran out of data: the result is INCOMPLETE with a chunk that is not valid, or a rejection *)
+    exfalso. destruct Hfl as [-> Hv]. cbn [nonempty orb] in H.
+    assert (Hv0 : rc_valid k0 = false) by (unfold k0; destruct (rc_valid (rv_chunk v)) eqn:E0; [reflexivity | exact E0]).
+    rewrite Hv0 in Hv. destruct (rc_failed k1).
+    + unfold invalid in H. inversion H; subst. destruct Hr as [E|[E|[E _]]]; discriminate E.
+    + rewrite Hv in H. inversion H; subst. destruct Hr as [E|[E|[_ E]]]; try discriminate E. cbn [rv_chunk] in E. congruence.
+  - exfalso. rewrite Hfl, Bool.orb_true_r in H. unfold invalid in H. inversion H; subst. destruct Hr as [E|[E|[E _]]]; discriminate E.
+Qed.
+
+Definition framed_head (q : rx_request) : bool :=
+  nonempty (hd_find (rq_headers q) hf_LC_CONTENT_LENGTH) || hd_is_chunked (rq_headers q).
+
+(* the head this call works with (the one it completes, or the one completed earlier) is framed *)
+Definition framed_call (cfg : rcfg) (v : receiver) (buf : str) : bool :=
+  let '(q1, _, r1) := if negb (rq_valid (rv_req v)) then rq_parse (c_lim cfg) (rv_req v) buf else (rv_req v, buf, Done) in
+  match r1 with Done => framed_head q1 | _ => true end.
+
+Lemma receive_body_end cfg rp v x b v3 r : rc_ok (rv_chunk v) -> receive_body cfg rp v x = (v3, [], r) ->
+  r = RX_VALID \/ r = RX_CHUNK \/
+  (r = RX_INCOMPLETE /\ hd_is_chunked (rq_headers (rv_req v3)) = true /\ rc_valid (rv_chunk v3) = true) ->
+  framed_head (rv_req v) = true ->
+  receive_body cfg rp v (x ++ b) = (v3, b, r).
+Proof.
+  intros Hok H Hr Hfr. pose proof H as H0. unfold receive_body in H |- *.
+  destruct (rq_missing_host (rv_req v)); [inversion H; subst; destruct Hr as [E|[E|[E _]]]; discriminate E|].
+  destruct (negb (hd_is_chunked (rq_headers (rv_req v)))) eqn:Ech.
+  - assert (Hcl : nonempty (hd_find (rq_headers (rv_req v)) hf_LC_CONTENT_LENGTH) = true).
+    { unfold framed_head in Hfr. destruct (hd_is_chunked (rq_headers (rv_req v))); [discriminate Ech|]. rewrite Bool.orb_false_r in Hfr. exact Hfr. }
+    destruct Hr as [->|[->|[-> [Hv _]]]].
+    + exact (receive_cl_end cfg rp v x b v3 H Hcl).
+    + exfalso. revert H. unfold receive_cl, invalid.
+      repeat match goal with |- context [if ?c then _ else _] => destruct c | |- context [match ?c with Some _ => _ | None => _ end] => destruct c end;
+        intros H; inversion H.
+    + exfalso. rewrite (receive_cl_incomplete_req _ _ _ _ _ _ H) in Hv. rewrite Hv in Ech. discriminate Ech.
+  - apply (receive_chunked_end cfg rp v x b v3 r Hok H).
+    destruct Hr as [E|[E|[E [_ E2]]]]; [left; exact E | right; left; exact E | right; right; split; assumption].
+Qed.
+
+Theorem receive_end cfg v a b v1 r : rv_ok v -> receive cfg v a = (v1, [], r) ->
+  r = RX_VALID \/ r = RX_CHUNK \/
+  (r = RX_INCOMPLETE /\ rq_valid (rv_req v1) = true /\ hd_is_chunked (rq_headers (rv_req v1)) = true /\
+   rc_valid (rv_chunk v1) = true) ->
+  framed_call cfg v a = true ->
+  receive cfg v (a ++ b) = (v1, b, r).
+Proof.
+  intros [Hq Hc] H Hr' Hfr.
+  assert (Hr : r = RX_VALID \/ r = RX_CHUNK \/
+               (r = RX_INCOMPLETE /\ hd_is_chunked (rq_headers (rv_req v1)) = true /\ rc_valid (rv_chunk v1) = true))
+    by (destruct Hr' as [E|[E|[E [_ E2]]]]; [left; exact E | right; left; exact E | right; right; split; assumption]).
+  unfold receive in H |- *. unfold framed_call in Hfr. cbv zeta in H |- *.
+  destruct (rq_valid (rv_req v)) eqn:Ev; cbn [negb] in *.
+  - rewrite rv_eta in *. exact (receive_body_end cfg false v a b v1 r Hc H Hr Hfr).
+  - rewrite (rq_parse_app (c_lim cfg) _ a b Hq).
+    destruct (rq_parse (c_lim cfg) (rv_req v) a) as [[q1 b1] r1] eqn:Ep.
+    pose proof (rq_parse_flags _ _ _ _ _ _ Ev Ep) as Hfl.
+    destruct r1.
+    + set (w := mk_rv q1 (rv_chunk v) (rv_body v) (rv_code v) (rv_continue_sent v) (rv_is_head v)) in *.
+      (* everything after the head was consumed too *)
+      assert (Hb1 : forall y, receive_body cfg true w b1 = (v1, [], r) -> receive_body cfg true w (b1 ++ y) = (v1, y, r)).
+      { intros y Hy. exact (receive_body_end cfg true w b1 y v1 r Hc Hy Hr Hfr). }
+      exact (Hb1 b H).
+    + (* the head is not complete: the result is INCOMPLETE or a rejection, never one of the three *)
+      exfalso. destruct Hfl as [-> Hv1]. cbn [nonempty orb] in H.
+      destruct (rl_fail (rq_line q1) || hd_fail (rq_headers q1)).
+      * unfold invalid in H. inversion H; subst. destruct Hr as [E|[E|[E _]]]; discriminate E.
+      * inversion H; subst. destruct Hr' as [E|[E|[_ [E _]]]]; try discriminate E.
+        cbn [rv_req] in E. congruence.
+    + exfalso. pose proof (rq_parse_fail _ _ _ _ _ Ep) as F.
+      rewrite <- Bool.orb_assoc in H. rewrite F, !Bool.orb_true_r in H. unfold invalid in H. inversion H; subst.
+      destruct Hr as [E|[E|[E _]]]; discriminate E.
+Qed.
+
+(* a valid chunk belongs to a request whose head is complete *)
+Definition rv_inv2 (v : receiver) : Prop := rc_valid (rv_chunk v) = true -> rq_valid (rv_req v) = true.
+
+Lemma rv_inv2_clear v : rv_inv2 (rv_clear v).
+Proof. unfold rv_inv2, rv_clear. cbn. discriminate. Qed.
+
+Lemma rq_parse_done_valid L q buf q1 rest : rq_parse L q buf = (q1, rest, Done) -> rq_valid q1 = true.
+Proof.
+  unfold rq_parse.
+  destruct (if rl_valid (rq_line q) then (rq_line q, buf, Done) else rl_parse L (rq_line q) buf) as [[l1 b1] r1].
+  destruct r1; try (intros H; inversion H; fail).
+  destruct (if hd_valid (rq_headers q) then (rq_headers q, b1, Done) else hd_parse L (rq_headers q) b1) as [[h1 b2] r2].
+  destruct r2; intros H; inversion H; reflexivity.
+Qed.
+
+Lemma receive_inv2 cfg v buf v1 rest r : rv_inv2 v -> receive cfg v buf = (v1, rest, r) -> rv_inv2 v1.
+Proof.
+  intros Hi. unfold receive. cbv zeta.
+  destruct (rq_valid (rv_req v)) eqn:Ev; cbn [negb].
+  - (* head complete before: the request stays valid wherever it is kept *)
+    rewrite rv_eta. unfold receive_body.
+    destruct (rq_missing_host (rv_req v)); [intros H; inversion H; subst; unfold rv_inv2; cbn; intros _; exact Ev|].
+    destruct (negb (hd_is_chunked (rq_headers (rv_req v)))).
+    + unfold receive_cl, invalid.
+      repeat match goal with |- context [if ?c then _ else _] => destruct c | |- context [match ?c with Some _ => _ | None => _ end] => destruct c end;
+        intros H; inversion H; subst; try apply rv_inv2_clear; unfold rv_inv2; cbn; intros _; exact Ev.
+    + unfold receive_chunked, invalid. cbv zeta.
+      destruct (false && rq_expect_continue (rv_req v) && _); [intros H; inversion H; subst; unfold rv_inv2; cbn; intros _; exact Ev|].
+      destruct (false && negb (c_concat cfg)); [intros H; inversion H; subst; unfold rv_inv2; cbn; intros _; exact Ev|].
+      destruct (rc_parse _ _ buf) as [[k1 b2] r2].
+      repeat match goal with |- context [if ?c then _ else _] => destruct c end;
+        intros H; inversion H; subst; try apply rv_inv2_clear; unfold rv_inv2; cbn; intros _; exact Ev.
+  - destruct (rq_parse (c_lim cfg) (rv_req v) buf) as [[q1 b1] r1] eqn:Ep.
+    assert (Hcv : rc_valid (rv_chunk v) = false) by (destruct (rc_valid (rv_chunk v)) eqn:E; [rewrite (Hi E) in Ev; discriminate | reflexivity]).
+    destruct r1.
+    + pose proof (rq_parse_done_valid _ _ _ _ _ Ep) as Hq1. unfold receive_body. cbn [rv_req].
+      destruct (rq_missing_host q1); [intros H; inversion H; subst; unfold rv_inv2; cbn; intros _; exact Hq1|].
+      destruct (negb (hd_is_chunked (rq_headers q1))).
+      * unfold receive_cl, invalid. cbn [rv_req rv_chunk rv_body rv_code rv_continue_sent rv_is_head].
+        repeat match goal with |- context [if ?c then _ else _] => destruct c | |- context [match ?c with Some _ => _ | None => _ end] => destruct c end;
+          intros H; inversion H; subst; try apply rv_inv2_clear; unfold rv_inv2; cbn; intros _; exact Hq1.
+      * unfold receive_chunked, invalid. cbv zeta. cbn [rv_req rv_chunk rv_body rv_code rv_continue_sent rv_is_head].
+        destruct (true && rq_expect_continue q1 && _); [intros H; inversion H; subst; unfold rv_inv2; cbn; intros _; exact Hq1|].
+        destruct (true && negb (c_concat cfg)); [intros H; inversion H; subst; unfold rv_inv2; cbn; intros _; exact Hq1|].
+        destruct (rc_parse _ _ b1) as [[k1 b2] r2].
+        repeat match goal with |- context [if ?c then _ else _] => destruct c end;
+          intros H; inversion H; subst; try apply rv_inv2_clear; unfold rv_inv2; cbn; intros _; exact Hq1.
+    + unfold invalid. match goal with |- context [if ?c then _ else _] => destruct c end; intros H; inversion H; subst;
+        [apply rv_inv2_clear | unfold rv_inv2; cbn; intros E; congruence].
+    + unfold invalid. match goal with |- context [if ?c then _ else _] => destruct c end; intros H; inversion H; subst;
+        [apply rv_inv2_clear | unfold rv_inv2; cbn; intros E; congruence].
+Qed.
+
+Lemma dispatch_inv2 cfg v r : rv_inv2 v -> rv_inv2 (fst (dispatch_rx cfg v r)).
+Proof.
+  intros Hi. unfold dispatch_rx. destruct r.
+  - apply rv_inv2_clear.
+  - exact Hi.
+  - exact Hi.
+  - destruct (negb (rq_is_trace (rv_req v))); [|apply rv_inv2_clear].
+    destruct (hd_is_chunked (rq_headers (rv_req v)) && negb (c_concat cfg)); [exact Hi | apply rv_inv2_clear].
+  - destruct (rc_is_last (rv_chunk v)); [apply rv_inv2_clear | exact Hi].
+  - exact Hi.
+Qed.
+
+(* every request head the loop meets says how the request is framed *)
+Fixpoint loop_framed (fuel : nat) (cfg : rcfg) (v : receiver) (buf : str) : bool :=
+  match buf with
+  | [] => true
+  | _ :: _ =>
+      match fuel with
+      | O => true
+      | S fuel' =>
+          let '(v1, rest, r) := receive cfg v buf in
+          framed_call cfg v buf &&
+          match r with
+          | RX_INVALID | RX_UB => true
+          | _ => loop_framed fuel' cfg (fst (dispatch_rx cfg v1 r)) rest
+          end
+      end
+  end.
+
+Definition ends_well (calls : list (rx * N)) : Prop :=
+  exists pre r n, calls = pre ++ [(r, n)] /\ (r = RX_INCOMPLETE \/ r = RX_VALID \/ r = RX_CHUNK).
+
+(* any read boundary that does not fall behind an interim EXPECT_CONTINUE: the loop over a ++ b delivers what the
+   loop over a followed by the loop over b delivers, and ends in the same state *)
+Theorem rx_loop_cut cfg : forall n v a b v1 e1 c1 m v2 e2 c2,
+  rv_ok v -> rv_inv2 v ->
+  rx_loop n cfg v a = (v1, e1, c1, false) -> ends_well c1 -> no_reject c1 -> loop_framed n cfg v a = true ->
+  rx_loop m cfg v1 b = (v2, e2, c2, false) ->
+  exists c, rx_loop (n + m) cfg v (a ++ b) = (v2, e1 ++ e2, c, false).
+Proof.
+  induction n as [|n IH]; intros v a b v1 e1 c1 m v2 e2 c2 Hok Hi2 Ha Hend Hnr Hfr Hb.
+  - destruct a; cbn [rx_loop] in Ha; inversion Ha; subst. destruct Hend as [pre [r [k [E _]]]]. destruct pre; discriminate.
+  - destruct a as [|d t].
+    { cbn [rx_loop] in Ha. inversion Ha; subst. destruct Hend as [pre [r [k [E _]]]]. destruct pre; discriminate. }
+    pose proof Ha as Ha0.
+    cbn [rx_loop] in Ha. cbn [loop_framed] in Hfr. destruct (receive cfg v (d :: t)) as [[w rest] r] eqn:Er.
+    apply Bool.andb_true_iff in Hfr. destruct Hfr as [Hfc Hfr].
+    pose proof (receive_ok _ _ _ _ _ _ Hok Er) as Hw. pose proof (receive_inv2 _ _ _ _ _ _ Hi2 Er) as Hwi.
+    destruct (receive_app cfg v (d :: t) b w rest r Hok Er) as [G1 G2].
+    pose proof (dispatch_ok cfg w r Hw) as Hw2. pose proof (dispatch_inv2 cfg w r Hwi) as Hw2i.
+    destruct (dispatch_rx cfg w r) as [w2 evs] eqn:Ed. cbn [fst] in Hw2, Hw2i, Hfr.
+    assert (Hr : r <> RX_INVALID /\ r <> RX_UB).
+    { destruct r; try (split; discriminate); exfalso; inversion Ha; subst;
+        (destruct (Hnr _ _ (or_introl eq_refl)) as [X Y]; congruence). }
+    destruct Hr as [Hr1 Hr2].
+    assert (Hrec : exists v3 e3 c3, rx_loop n cfg w2 rest = (v3, e3, c3, false) /\ v1 = v3 /\ e1 = evs ++ e3 /\
+                   c1 = (r, nlen (d :: t) - nlen rest) :: c3).
+    { destruct (rx_loop n cfg w2 rest) as [[[v3 e3] c3] o3] eqn:El.
+      destruct r; try congruence; inversion Ha; subst; eexists _, _, _; repeat split; reflexivity. }
+    destruct Hrec as [v3 [e3 [c3 [El [Ev [Ee Ec]]]]]]. subst v1 e1 c1.
+    destruct rest as [|x rest'].
+    + (* the call consumed the rest of the read *)
+      assert (Hc3 : v3 = w2 /\ e3 = [] /\ c3 = []) by (destruct n; cbn [rx_loop] in El; inversion El; auto).
+      destruct Hc3 as [-> [-> ->]].
+      destruct Hend as [pre [r0 [k [E Hkind]]]]. assert (r0 = r).
+      { destruct pre as [|p pre']; [inversion E; reflexivity|]. inversion E. destruct pre'; discriminate. }
+      subst r0. rewrite app_nil_r.
+      (* either the call ran out of data in the middle of a message, or it completed something with the last byte *)
+      assert (Hcase : (r = RX_INCOMPLETE /\ (hd_is_chunked (rq_headers (rv_req w)) = false \/ rc_valid (rv_chunk w) = false)) \/
+                      (r = RX_VALID \/ r = RX_CHUNK \/
+                       (r = RX_INCOMPLETE /\ rq_valid (rv_req w) = true /\ hd_is_chunked (rq_headers (rv_req w)) = true /\ rc_valid (rv_chunk w) = true))).
+      { destruct Hkind as [Hk|[Hk|Hk]]; subst r; [|right; left; reflexivity | right; right; left; reflexivity].
+        destruct (hd_is_chunked (rq_headers (rv_req w))) eqn:E1; [|left; split; [reflexivity | left; reflexivity]].
+        destruct (rc_valid (rv_chunk w)) eqn:E2; [|left; split; [reflexivity | right; reflexivity]].
+        right. right. right. repeat split; try reflexivity. exact (Hwi E2). }
+      destruct Hcase as [[-> Hmid]|Hendk].
+      * (* mid-message: as in rx_loop_cut_mid_message *)
+        cbn [dispatch_rx] in Ed. inversion Ed; subst. clear Ed. cbn [app].
+        destruct b as [|y b'].
+        -- cbn [rx_loop] in Hb. destruct m; cbn [rx_loop] in Hb; inversion Hb; subst;
+             rewrite app_nil_r; eexists; apply (rx_loop_more_fuel cfg (S n) v (d :: t) _ _ _ Ha0).
+        -- destruct m as [|m]; [cbn [rx_loop] in Hb; inversion Hb|].
+           replace (S n + S m)%nat with (S (m + S n))%nat by lia.
+           change ((d :: t) ++ y :: b') with (d :: (t ++ y :: b')). cbn [rx_loop].
+           change (d :: t ++ y :: b') with ((d :: t) ++ y :: b'). rewrite (G2 eq_refl eq_refl Hmid).
+           cbn [rx_loop] in Hb. destruct (receive cfg w2 (y :: b')) as [[w' rest'] r'] eqn:Er'.
+           destruct (dispatch_rx cfg w' r') as [w2' evs'].
+           destruct r'; try (inversion Hb; subst; eexists; reflexivity);
+             (destruct (rx_loop m cfg w2' rest') as [[[v4 e4] c4] o4] eqn:El4; inversion Hb; subst;
+              rewrite (rx_loop_more_fuel cfg m _ _ _ _ _ El4 (S n)); eexists; reflexivity).
+      * (* a delivery with the last byte of the read *)
+        pose proof (receive_end cfg v (d :: t) b w r Hok Er Hendk Hfc) as Ge.
+        destruct b as [|y b'].
+        -- cbn [rx_loop] in Hb. destruct m; cbn [rx_loop] in Hb; inversion Hb; subst;
+             repeat rewrite app_nil_r in Ha0; repeat rewrite app_nil_r; eexists; apply (rx_loop_more_fuel cfg (S n) v (d :: t) _ _ _ Ha0).
+        -- change ((d :: t) ++ y :: b') with (d :: (t ++ y :: b')). cbn [Nat.add rx_loop].
+           change (d :: t ++ y :: b') with ((d :: t) ++ y :: b'). rewrite Ge, Ed.
+           replace (n + m)%nat with (m + n)%nat by lia.
+           rewrite (rx_loop_more_fuel cfg m _ _ _ _ _ Hb n).
+           exists ((r, nlen ((d :: t) ++ y :: b') - nlen (y :: b')) :: c2).
+           destruct r; try congruence; reflexivity.
+    + (* the call left bytes of this read unread: it does not see b *)
+      assert (Hne : x :: rest' <> []) by discriminate.
+      assert (Hend3 : ends_well c3).
+      { destruct Hend as [pre [r0 [k [E Hk]]]]. destruct pre as [|p pre'].
+        - inversion E; subst. exfalso. exact (rx_loop_calls_nonempty _ _ _ _ _ _ _ El).
+        - inversion E; subst. exists pre', r0, k. split; [reflexivity | exact Hk]. }
+      assert (Hnr3 : no_reject c3) by (intros r0 n0 Hin; apply (Hnr r0 n0); right; exact Hin).
+      assert (Hfr3 : loop_framed n cfg w2 (x :: rest') = true) by (destruct r; try congruence; exact Hfr).
+      destruct (IH w2 (x :: rest') b v3 e3 c3 m v2 e2 c2 Hw2 Hw2i El Hend3 Hnr3 Hfr3 Hb) as [c Hc].
+      change ((d :: t) ++ b) with (d :: (t ++ b)). cbn [Nat.add rx_loop].
+      change (d :: t ++ b) with ((d :: t) ++ b). rewrite (G1 Hne), Ed.
+      exists ((r, nlen ((d :: t) ++ b) - nlen ((x :: rest') ++ b)) :: c).
+      destruct r; try congruence; rewrite Hc, <- app_assoc; reflexivity.
+Qed.
+
+(* ---- a whole sequence of reads ---- *)
+Fixpoint cuts_ok (cfg : rcfg) (v : receiver) (frags : list str) : Prop :=
+  match frags with
+  | [] => True
+  | f :: t =>
+      let '(v1, e1, c1, o1) := read_loop cfg v f in
+      o1 = false /\ cuts_ok cfg v1 t /\
+      (f = [] \/ t = [] \/ (ends_well c1 /\ no_reject c1 /\ loop_framed (loop_fuel f) cfg v f = true))
+  end.
+
+Lemma rx_loop_inv2 cfg : forall fuel v buf, rv_inv2 v -> rv_inv2 (fst (fst (fst (rx_loop fuel cfg v buf)))).
+Proof.
+  induction fuel as [|fuel IH]; intros v buf Hi; destruct buf as [|c t]; cbn [rx_loop fst]; try exact Hi.
+  destruct (receive cfg v (c :: t)) as [[v1 rest] r] eqn:Er. pose proof (receive_inv2 _ _ _ _ _ _ Hi Er) as H1.
+  pose proof (dispatch_inv2 cfg v1 r H1) as H2. destruct (dispatch_rx cfg v1 r) as [v2 evs]. cbn [fst] in H2.
+  destruct r; try (specialize (IH v2 rest H2); destruct (rx_loop fuel cfg v2 rest) as [[[v3 e3] c3] o3]; exact IH); exact H2.
+Qed.
+
+(* however a byte stream is cut into reads (no cut directly behind an interim EXPECT_CONTINUE, no rejection before the
+   last read, every request framed), the reads together deliver what the whole stream delivers in one read, in the
+   same order, and leave the connection in the same state *)
+Theorem feed_is_stream cfg : forall frags v, rv_ok v -> rv_inv2 v -> cuts_ok cfg v frags ->
+  exists N c, forall k,
+    rx_loop (N + k) cfg v (concat frags) =
+    (fst (fst (fst (feed cfg v frags))), snd (fst (fst (feed cfg v frags))), c, false).
+Proof.
+  induction frags as [|f t IH]; intros v Hok Hi Hc.
+  - exists 0%nat, []. intros k. cbn [concat feed fst snd]. destruct k; reflexivity.
+  - cbn [cuts_ok] in Hc. cbn [feed concat]. unfold read_loop in *.
+    destruct (rx_loop (loop_fuel f) cfg v f) as [[[v1 e1] c1] o1] eqn:El.
+    destruct Hc as [-> [Hct Hcase]].
+    pose proof (rx_loop_ok cfg (loop_fuel f) v f Hok) as Hok1. rewrite El in Hok1. cbn [fst] in Hok1.
+    pose proof (rx_loop_inv2 cfg (loop_fuel f) v f Hi) as Hi1. rewrite El in Hi1. cbn [fst] in Hi1.
+    destruct (IH v1 Hok1 Hi1 Hct) as [N [c HN]].
+    destruct (feed cfg v1 t) as [[[v2 e2] c2] o2] eqn:Ef. cbn [fst snd] in *.
+    destruct Hcase as [->|[->|[Hew [Hnr Hfr]]]].
+    + (* an empty read *)
+      cbn [rx_loop] in El. assert (v1 = v /\ e1 = []) by (destruct (loop_fuel []); cbn [rx_loop] in El; inversion El; auto).
+      destruct H as [-> ->]. exists N, c. exact HN.
+    + (* the last read *)
+      cbn [feed] in Ef. inversion Ef; subst. cbn [concat]. rewrite !app_nil_r.
+      exists (loop_fuel f), c1. intros k. exact (rx_loop_more_fuel cfg _ _ _ _ _ _ El k).
+    + specialize (HN 0%nat). rewrite Nat.add_0_r in HN.
+      destruct (rx_loop_cut cfg _ v f (concat t) v1 e1 c1 N v2 e2 c Hok Hi El Hew Hnr Hfr HN) as [c' Hc'].
+      exists (loop_fuel f + N)%nat, c'. intros k. exact (rx_loop_more_fuel cfg _ _ _ _ _ _ Hc' k).
 Qed.
